@@ -342,6 +342,12 @@ def run(ctx):
     tso = [f for f in F.with_closures(tsz) if blocks_constructing(f, "ProgramRegistryError", "TypeSizeOverflow")]
     ctx.ob("R14.3", "get_type_size_map:TypeSizeOverflow", bool(tso), "overflowing sizes are rejected with TypeSizeOverflow", tsz.where())
 
+    # every branch destination is range-checked, whatever the kind of target (the per-statement vectors of the gas /
+    # ap-change passes and of the compiler are indexed by destinations without a further test)
+    vst = F.find1("cairo_lang_sierra::program_registry::ProgramRegistry", name="validate_statement")
+    g("validate_statement:destination>=len", vst, Cmp("ge", None, "c:len"), rel="ge",
+      err=("ProgramRegistryError", "JumpOutOfRange"))
+
     # ---------------- R14.4 no dead rejection
     ERR_ENUMS = ["cairo_lang_sierra::program_registry::ProgramRegistryError",
                  "cairo_lang_sierra_to_casm::compiler::CompilationError",
